@@ -60,3 +60,8 @@ Definition exit_gap (s : st) : option Q :=
   end.
 Definition exit_min_lam (s : st) : option Q :=
   match relm s with Ok s' => min_lam s' | _ => None end.
+
+(* the lm vector has one entry per constraint (hypothesis of the stationarity theorems; kept by every walk) *)
+Definition lm_lenb (s : st) : bool := Nat.eqb (length (clm s)) (length (scons s)).
+(* what the extracted model evaluates on every state it visits *)
+Definition kkt_stateb (s : st) : bool := lm_lenb s && stationarityb s.
